@@ -41,6 +41,9 @@ def run_exact_points(ctx, h, quick):
             cases.append((fn, k, f"{fn}(({k}) pi / 12)"))
             if k % 2 == 0 and abs(k) <= 96:
                 cases.append((fn, k, f"{fn}({k * 15} degrees)"))
+    for k in range(-K, K + 1):
+        if k % 2 == 1 and abs(k) <= 60:
+            cases.append(("sin", k, f"sin({k * 15} degrees)")); cases.append(("cos", k, f"cos({k * 15} degrees)"))
     outs = ctx.run_lines_robust(h, ["eval"], [c[2] for c in cases], env={"HARNESS_LINE_TIMEOUT_S": "20"})
     ml = [f"{fn} {k // 2}" if k % 2 == 0 else "sin 2" for fn, k, _ in cases]          # odd multiples of pi/12 are never in the table
     model = ctx.run_lines(core.DRIVER, ["elem"], ml, timeout=600)[1]
@@ -67,6 +70,10 @@ def run_exact_points(ctx, h, quick):
                 ctx.model_disagreements.append({"stream": "exact-points", "input": line, "impl": o, "model": m})
         else:
             dist["approx_marked"] += 1
+            import math
+            true = (math.sin if fn == "sin" else math.cos)(k * math.pi / 12)
+            if abs(float(val) - true) > 1e-9:
+                ctx.spec_failures.append({"stream": "exact-points", "input": line, "impl": o, "model": f"{true:.12f}", "spec": "sin / cos of a multiple of pi/12 within 1e-9 of the true value"})
             if not marked:
                 ctx.spec_failures.append({"stream": "exact-points", "input": line, "impl": o, "model": m, "spec": "an irrational value shown as digits must be marked approx."})
             if m != "approx":
@@ -178,6 +185,18 @@ def run_special(ctx, h, quick):
             got = fc.read_text(o[11:], 10, ".")
             if abs(got - consts[line]) > F(1, 10 ** 9):
                 ctx.spec_failures.append({"stream": "special", "input": line, "impl": o, "model": str(float(consts[line])), "spec": "the constant is accurate to 1e-9"})
+    # tan at multiples of pi/12 away from its poles
+    import math
+    tk = [k for k in range(-40, 41) if k % 12 != 6]
+    touts = ctx.run_lines_robust(h, ["eval"], [f"@noapprox (tan(({k}) pi / 12)) to fraction" for k in tk], env={"HARNESS_LINE_TIMEOUT_S": "30"})
+    for k, o in zip(tk, touts):
+        true = math.tan(k * math.pi / 12)
+        try:
+            got = float(fc.read_text(o[3:], 10, ".")) if o.startswith("ok ") else None
+        except Exception:
+            got = None
+        if got is None or abs(got - true) > 1e-9 * max(1.0, abs(true)):
+            ctx.spec_failures.append({"stream": "special", "input": f"tan(({k}) pi / 12)", "impl": o[:80], "model": f"{true:.12f}", "spec": "tan of a multiple of pi/12 within 1e-9 x max(1, |true|)"})
     c2 = ctx.run_lines_robust(h, ["eval"], ["@noapprox pi to 30 dp", "@noapprox e to 17 dp"], env={"HARNESS_LINE_TIMEOUT_S": "30"})
     if not c2[0].startswith("ok 3.14159265358979323846"):
         ctx.spec_failures.append({"stream": "special", "input": "pi to 30 dp", "impl": c2[0], "model": "3.141592653589793238462643383279", "spec": "pi"})
